@@ -28,6 +28,11 @@ pub struct Oracle {
     failed_sets: BTreeMap<String, BTreeSet<String>>,
 }
 
+/// `validate_field_name`, and long enough for a substring match to mean something
+fn could_be_db(n: &str) -> bool {
+    n.len() >= 4 && n.len() <= 64 && n.bytes().all(|b| b.is_ascii_lowercase() || b.is_ascii_digit() || b == b'_')
+}
+
 /// methods whose default parameters address collection `c1` (their handler opens it)
 fn opens_c1(method: &str) -> bool {
     (method.starts_with("doc.") || method.starts_with("collection.")) && !matches!(method, "collection.list" | "collection.create" | "collection.ensure" | "collection.delete")
@@ -284,7 +289,10 @@ impl Oracle {
     /// Learn bindings from what the implementation answered.
     pub fn observe(&mut self, r: &Req, resp: &ImplResp, w: &World) {
         if let Target::Db { name, .. } = &r.target {
-            self.names.insert(name.clone());
+            // only a well-formed name can be a database whose existence could leak (`..`, `%zz`, … cannot)
+            if could_be_db(name) {
+                self.names.insert(name.clone());
+            }
             if let (Some(done), Some(m)) = (self.reopened_since_crash.as_mut(), r.method())
                 && r.verb == "POST"
                 && opens_c1(m)
@@ -303,7 +311,10 @@ impl Oracle {
             return;
         }
         if crate::ops::dec_str(&crate::ops::enc_str(name)).is_some() && !name.is_empty() {
-            self.names.insert(name.clone());
+            // only a well-formed name can be a database whose existence could leak (`..`, `%zz`, … cannot)
+            if could_be_db(name) {
+                self.names.insert(name.clone());
+            }
         }
         let key_mgmt = matches!(method.as_str(), "db.set_api_key" | "db.remove_api_key") || (method == "db.create" && key.is_some());
         if resp.status >= 500 && key_mgmt {
